@@ -15,6 +15,13 @@ VERIF = R.VERIF
 PROVED, REFUTED, UNKNOWN, MISSING = "proved", "refuted", "unknown", "missing"
 
 
+# private helpers that stay calls in every analysis (one reason each)
+KEEP_CALLS = {
+    "from_iter_length_fail",        # the diverging length-failure exit of FromIterator: C07.F states its rule at this call
+    "hex_encode", "hex_encode_fallback", "generic_hex",   # C14 states its rules at the encoder call sites (H5) and analyses each body on its own
+}
+
+
 class Ctx:
     def __init__(self, prop, tier, seed):
         self.prop = prop
@@ -61,8 +68,24 @@ class Ctx:
             if b is None:
                 self.analysed[k] = None
             else:
-                self.analysed[k] = analyze(db, b, self.models)
+                self.analysed[k] = analyze(db, self.inlined(db, b), self.models)
         return self.analysed[k]
+
+    def inlined(self, db, b, keep=()):
+        """`b` with calls to the crate's private (non-exported, unmodelled) helpers expanded (mirxf.inline_calls); helpers named in
+        self.keep_calls / keep stay calls (a property that states its rule at such a call site says so)."""
+        from .mirxf import inline_calls
+        from .models import MODELS, PURE_KEYS
+        skip = set(MODELS) | set(PURE_KEYS) | set(keep) | set(getattr(self, "keep_calls", ())) | KEEP_CALLS
+
+        # a helper is private in every configuration that is loaded (the `internals` feature exports the builder API: it is API in F0 too)
+        api = set()
+        for d2 in self.dbs.values():
+            api |= {x["key"] for x in d2.bodies if x["kind"] in ("Fn", "AssocFn") and (x.get("vis") or {}).get("exported", True)}
+
+        def pred(cb, term, chain):
+            return cb["key"] not in skip and cb["key"] not in api and not (cb.get("vis") or {}).get("exported", True)
+        return inline_calls(db, b, pred)
 
     def analysis_inl(self, cfg, key, entry_facts=None, split=False, keep=(), tag=""):
         """Analysis of `key` with the crate's private (non-exported, unmodelled) helper functions inlined at their call sites,
@@ -77,11 +100,7 @@ class Ctx:
             if b is None:
                 self.analysed[k] = None
             else:
-                skip = set(MODELS) | set(PURE_KEYS) | set(keep)
-
-                def pred(cb, term, chain):
-                    return cb["key"] not in skip and not (cb.get("vis") or {}).get("exported", True)
-                b2 = inline_calls(db, b, pred)
+                b2 = self.inlined(db, b, keep)
                 if split:
                     b2 = treeify(b2)
                 self.analysed[k] = analyze(db, b2, self.models, entry_facts)
